@@ -38,7 +38,7 @@ cfg("MCEvmValue_emit_frames_q.cfg", real, dict(EOAs="E1", Contracts="K2", InitBa
 cfg("MCEvmValue_emit_frames.cfg", real, dict(), emit=True)
 cfg("MCEvmValue_emit_ops.cfg", real, dict(one1r, TxKinds="TKCallX", TxValues="RV02", CallValues="RV0", Regimes="RAll", Prefills="PFEdge", OpKinds="OKAll",
                                           MaxDepth="= 1", MaxFrameOps="= 1"), emit=True)
-cfg("MCEvmValue_emit_ops_big.cfg", real, dict(one1r, TxKinds="TKCallX", TxValues="RV02", CallValues="RV0", Regimes="RAll", Prefills="PFAll", OpKinds="OKAll",
+cfg("MCEvmValue_emit_ops_big.cfg", real, dict(one1r, TxKinds="TKCall", TxValues="RV02", CallValues="RV0", Regimes="RBFG", Prefills="PF2", OpKinds="OKAll",
                                           MaxDepth="= 1", MaxFrameOps="= 2"), emit=True)
 cfg("MCEvmValue_emit_f5.cfg", real, dict(one1r, TxKinds="TKCreate", TxValues="RV03", CallValues="RV0", Regimes="RG", OpKinds="OKEtx", DestClasses="DSome2",
                                          AmtClasses="ASome2", GlClasses="GOk", FeeClasses="FSome", AlClasses="ALSome", MaxDepth="= 1", MaxFrameOps="= 2"), emit=True)
